@@ -290,6 +290,7 @@ class TemplateWorld:
 
         sut.world = sut.world0 = self.spec
         sut.log = []
+        sut.call_style = None
         sut.device = self.device
         sut.register = self.direct_register(qubits)
         sut.seq = Sequence(sut.register, self.device)
